@@ -169,11 +169,6 @@ def finding_key(rec, k):
     """Key naming the specific failing input: numeric case = type/op/mode/operands; history = the operation at which
     the trace stops matching together with the model state it is applied in (independent of the history's index)."""
     if rec["rt"] == "num":
-        # one recorded mechanism: in optimised builds the IR `cse` pass merges the checked operation that follows a
-        # wrapping_* call with the (flag-protected) operation inside it, so the second one no longer reverts
-        if rec["op"].startswith("wrapping_") and rec["profile"] == "release" and rec["out"] == "return" \
-                and len(rec["logs"]) == 2 and rec["logs"][0] == rec["logs"][1]:
-            return "num:%s:%s:release:checked-op-merged-with-wrapping-op" % (rec["ty"], rec["op"])
         return rec["id"] + "@" + rec["profile"]
     ops = rec["ops"]
     o = ops[min(k, len(ops)) - 1]
